@@ -21,7 +21,7 @@ from .broker_trace import rat
 CLAUSE_PROPS = {
     "pos": ["C01"], "nlv": ["C01"], "mrg": ["C05"], "cash": ["C05"], "trades": ["C12"], "out": [],
     "fifo": ["C08"], "stamp": ["C08", "C04"], "order": ["C08"], "ctx": ["C07"], "entries": ["C07"], "reward": ["C07"],
-    "target": ["C03"], "done": ["C15"],
+    "target": ["C03"], "done": ["C15"], "loud": ["C13"], "atomic": ["C13"], "spurious": ["C03", "C12"],
 }
 BASE = datetime(2019, 3, 4)   # a Monday
 DEPOSIT = 100000
@@ -76,6 +76,20 @@ def gen_config(rnd, tier):
     n = len(steps)
     if n < 5:
         return gen_config(rnd, tier)
+    # faults (a third of the configurations): a quote that loses one side, a discontinuation; the episode then runs until a
+    # valuation or a rebalance needs the missing quote - step() must fail exactly there, and leave the account as it was
+    if rnd.random() < 0.33:
+        for _ in range(rnd.randint(1, 2)):
+            i = rnd.randint(max(1, n // 3), n - 1)
+            t = steps[i] - rnd.choice([0, 1, 2])
+            c = rnd.choice(names)
+            kind = rnd.choice(["bid", "ask", "ask", "disc"])
+            if kind == "disc":
+                events.append({"t": t, "c": c, "disc": True})
+            else:
+                q = quote(t, c)
+                q[kind] = None
+                events.append(q)
     half = [F(k, 2) for k in range(-8, 9)]
     whole = [F(k) for k in range(-4, 5)]
     episodes = []
@@ -139,6 +153,14 @@ class Recorder:
         self.ops.append(line)
         self.pending_quotes.append(line)
 
+    def on_disc(self, event):
+        name = self.by_contract.get(event.contract)
+        if name is None:
+            return
+        line = {"op": "disc", "c": name, "t": secs(event.time)}
+        line.update(self.account())
+        self.ops.append(line)
+
     def on_rebalance(self, reb, out):
         self.k += 1
         alloc = {}
@@ -147,7 +169,7 @@ class Recorder:
             if n is not None and float(v) != 0.0:
                 alloc[n] = rat(v)
         line = {"op": "rebalance", "alloc": alloc, "k": self.k, "thr": [0, 1], "fractional": bool(reb.fractional), "out": out,
-                "trades": {}, "ctxpre": [0, 0], "ctxpost": [0, 0]}
+                "trades": {}, "ctxpre": [0, 0], "ctxpost": [0, 0], "entries": len(self.env.broker.track_record)}
         if out == "ok":
             tr = {}
             for t in reb.trades:
@@ -163,7 +185,7 @@ def run_env(cfg):
     """drive a real TradingEnv through the configuration; returns the recorded trace"""
     from tradingenv.env import TradingEnv
     from tradingenv.transmitter import Transmitter
-    from tradingenv.events import EventNBBO
+    from tradingenv.events import EventNBBO, EventContractDiscontinued
     from tradingenv.spaces import BoxPortfolio
     from tradingenv.features import Feature
     from tradingenv.broker.fees import BrokerFees
@@ -179,6 +201,9 @@ def run_env(cfg):
 
         def process_EventNBBO(self, event):
             rec.on_quote(event)
+
+        def process_EventContractDiscontinued(self, event):
+            rec.on_disc(event)
 
     if cfg.get("nano"):
         import pandas as pd
@@ -202,7 +227,10 @@ def run_env(cfg):
             a_end = T(steps[m])                      # inclusive bound exactly on the last timestep
         folds = {"a": [datetime.min, a_end], "f": [T(steps[m + 1]), datetime.max]}
     tr = Transmitter([T(t) for t in cfg["grid"]], folds=folds) if folds else Transmitter([T(t) for t in cfg["grid"]])
-    tr.add_events([EventNBBO(T(e["t"]), cs[e["c"]], float(e["bid"]), float(e["ask"])) for e in cfg["events"]])
+    nan = float("nan")
+    tr.add_events([EventContractDiscontinued(T(e["t"]), cs[e["c"]]) if e.get("disc") else
+                   EventNBBO(T(e["t"]), cs[e["c"]], nan if e["bid"] is None else float(e["bid"]), nan if e["ask"] is None else float(e["ask"]))
+                   for e in cfg["events"]])
     fixed, prop = FEES[cfg["fees"]]
     fees = BrokerFees(markup=0.0, interest_rate=Rate("VERIF-RATE"), proportional=float(prop), fixed=float(fixed))
     space = BoxPortfolio([cs[n] for n in cfg["names"]], low=-8.0, high=8.0, as_weights=False, fractional=cfg["fractional"], margin=0.0)
@@ -342,15 +370,7 @@ def validate(rep, prop, n, seed, tier, recs=None, clauses=None):
     """record n long executions of the real TradingEnv and let TLC validate them; clauses owned by `prop` are reported"""
     clauses = clauses_of(prop) if clauses is None else clauses
     recs = record(n, seed, tier) if recs is None else recs
-    aborted = [r for r in recs if r["ops"] and r["ops"][-1]["op"] == "abort"]
-    for r in aborted:
-        # a step that raised on this domain (solvent account, every contract quoted on both sides) is a spurious failure
-        last = r["ops"][-1]
-        if prop in ("C03", "C12"):
-            rep.violation("envledger_out", "envtrace/abort/%s" % last["out"],
-                          "step() raised on a solvent account with every contract quoted: %s" % last["error"],
-                          {"kind": "env-ledger-trace", "cfg": _plain(r["cfg"]), "ops": r["ops"][-6:]})
-        r["ops"].pop()
+    # a step that raised ends its trace with an `abort` line: TLC decides whether the specification fails there too
     groups = {}
     for r in recs:
         groups.setdefault((tuple(r["cfg"]["names"]), r["cfg"]["fees"]), []).append(r)
